@@ -21,30 +21,38 @@ def afterSet (p : P) (cmd : Cmd) (arg : List (Nat × Nat)) : P :=
 /-- `all`: exactly the given scripts, each with the (last) given number -/
 theorem set_all_replaces (p : P) (arg : List (Nat × Nat)) (s : Nat) :
     lookup s (afterSet p .all arg).scripts = lastGiven s arg := by
-  sorry
+  unfold lookup afterSet
+  rw [scripts_after_set_all, lookup_foldl_upsert]
+  cases lastGiven s arg <;> rfl
 
 /-- `partial`: the given scripts with the given numbers, every other script unchanged -/
 theorem set_partial_upserts (p : P) (arg : List (Nat × Nat)) (s : Nat)
     (hk : (p.scripts.map (·.1)).Nodup) :
     lookup s (afterSet p .part arg).scripts = (lastGiven s arg).orElse (fun _ => lookup s p.scripts) := by
-  sorry
+  have _ := hk  -- not needed: the lookup finds the first entry, whatever the keys
+  unfold lookup afterSet
+  rw [scripts_after_set_part, lookup_foldl_upsert]
 
 /-- `delete`: the named scripts are gone, every other script unchanged -/
 theorem set_delete_removes (p : P) (arg : List (Nat × Nat)) (s : Nat)
     (hk : (p.scripts.map (·.1)).Nodup) :
     lookup s (afterSet p .del arg).scripts =
       if arg.any (·.1 = s) then none else lookup s p.scripts := by
-  sorry
+  have _ := hk  -- not needed: the lookup finds the first entry, whatever the keys
+  unfold lookup afterSet
+  cases arg with
+  | nil => rw [scripts_after_set_del_nil]; simp
+  | cons x rest => rw [scripts_after_set_del_cons, lookup_filter_not_any]
 
 /-- every command that changes anything discards all pending matched blocks -/
 theorem set_discards_records (p : P) (cmd : Cmd) (arg : List (Nat × Nat))
     (h : setScriptsWrites p cmd arg ≠ []) : (afterSet p cmd arg).records = [] := by
-  sorry
+  exact records_after_set p cmd arg h
 
 /-- the script keys stay unique -/
 theorem set_keys_nodup (p : P) (cmd : Cmd) (arg : List (Nat × Nat))
     (hk : (p.scripts.map (·.1)).Nodup) : ((afterSet p cmd arg).scripts.map (·.1)).Nodup := by
-  sorry
+  exact keys_after_set p cmd arg hk
 
 /-! ## no kept script loses history -/
 
@@ -52,18 +60,24 @@ theorem set_keys_nodup (p : P) (cmd : Cmd) (arg : List (Nat × Nat))
 `set_scripts` command issued with matched blocks pending or partly downloaded -/
 theorem inv_step (touches : Nat → Nat → Bool) (g : G) (op : Op)
     (hi : Inv touches g) (ho : OpOk touches g op) : Inv touches (stepFull g op) := by
-  sorry
+  exact inv_stepFull touches g op hi ho
 
 /-- **C09, every history** of commands, filter batches and block arrivals -/
 theorem inv_run (touches : Nat → Nat → Bool) (g : G) (h : List Op)
     (hi : Inv touches g) (ho : HistOk touches g (h.map (fun op => (op, none)))) :
     Inv touches (runG touches g (h.map (fun op => (op, none)))) := by
-  sorry
+  exact inv_runG touches _ g hi ho
 
 /-- the empty store a client starts with satisfies the invariant -/
 theorem inv_init (touches : Nat → Nat → Bool) (lo : Nat → Nat) (m : Nat) :
     Inv touches ⟨⟨[], m, [], []⟩, lo⟩ := by
-  sorry
+  refine ⟨List.nodup_nil, ?_, ?_, ?_, ?_, List.Pairwise.nil, ?_, ?_⟩
+  · intro e he; cases he
+  · intro e he; cases he
+  · intro e he; cases he
+  · intro r hr; cases hr
+  · intro r hr; cases hr
+  · intro r hr; cases hr
 
 /-- **no overclaim**: in every reachable state, a block at or below the number `get_scripts`
 reports for a script, above the number the script was registered with, that touches the script,
@@ -79,7 +93,7 @@ theorem nothing_lost (touches : Nat → Nat → Bool) (g : G) (hi : Inv touches 
     (tip : Nat) (hdone : g.p.records = []) (htip : tip ≤ g.p.minF)
     (s n b : Nat) (hs : (s, n) ∈ g.p.scripts) (ht : touches s b = true)
     (hlo : g.lo s < b) (hb : b ≤ tip) : (s, b) ∈ g.p.indexed := by
-  sorry
+  exact indexed_of_done hi hdone hs ht hlo (Nat.le_trans hb htip)
 
 /-! ## the rule before the repair loses history (the defect fixed by 6d2afd8) -/
 
@@ -99,7 +113,10 @@ theorem old_partial_rule_loses :
     Inv touches g ∧
     let p' := applyWs g.p (oldPartialWrites g.p [(2, 20)])
     (1, 0) ∈ p'.scripts ∧ 5 ≤ p'.minF ∧ (1, 5) ∉ p'.indexed ∧ p'.records = [] := by
-  sorry
+  intro touches g
+  refine ⟨inv_example_pending, ?_⟩
+  intro p'
+  decide
 
 /-! ## non-vacuity -/
 
@@ -110,6 +127,7 @@ example :
     let g : G := ⟨⟨[(1, 0)], 10, [⟨1, 10, [5]⟩], []⟩, fun _ => 0⟩
     Inv touches g ∧ OpOk touches g (.set .part [(2, 20)]) ∧
     (stepFull g (.set .part [(2, 20)])).p.minF = 0 := by
-  sorry
+  intro touches g
+  exact ⟨inv_example_pending, trivial, by decide⟩
 
 end C09
